@@ -552,6 +552,178 @@ mod c18 {
         nrec
     }
 
+
+    // ---------------------------------------------------------------- contention phase
+    #[derive(Deserialize)]
+    struct Contend {
+        threads: usize,
+        rounds: usize,
+        /// agreeing rounds to emit as a sample (evenly spaced)
+        sample: usize,
+        /// at most this many disagreeing rounds are emitted
+        max_suspicious: usize,
+    }
+    #[derive(Serialize)]
+    struct ContendSummary {
+        rounds: usize,
+        /// rounds whose observations disagree (several addresses for the key, a lookup not answering the
+        /// key, an address seen in another round): all of them (up to max_suspicious) go to the trace
+        suspicious: usize,
+        emitted_suspicious: usize,
+        emitted_sample: usize,
+    }
+    /// What one thread saw in one round (sequence numbers: s1 before the barrier, s2 after get returned,
+    /// s3 before / s4 after the lookup of the address it was given).
+    #[derive(Clone, Copy)]
+    struct Seen {
+        s1: u64,
+        s2: u64,
+        s3: u64,
+        s4: u64,
+        addr: Ipv6Addr,
+        /// lookup(addr): 0 none, 1 the round's key, 2 another key
+        back: u8,
+    }
+    fn round_kind(r: usize) -> &'static str {
+        match r % 8 {
+            0 => "endpoint",
+            1 => "relay",
+            _ => "custom",
+        }
+    }
+    fn round_custom_key(r: usize) -> CustomAddr {
+        CustomAddr::from_parts(7, &(r as u64).to_be_bytes())
+    }
+    fn round_endpoint_key(r: usize) -> EndpointId {
+        let mut b = [0x5au8; 32];
+        b[..8].copy_from_slice(&(r as u64).to_be_bytes());
+        SecretKey::from_bytes(&b).public()
+    }
+
+    /// K threads, released together by a spin barrier in every round, all call get() on the same
+    /// brand-new key of the round and then look their address up again.
+    fn contend(c: &Contend, out: &mut NdjsonOut) -> ContendSummary {
+        use std::sync::atomic::AtomicUsize;
+        HOST_SPACE.store(0, Ordering::SeqCst);
+        let maps = AddrMaps::default();
+        let seq = Arc::new(AtomicU64::new(0));
+        let arrived = Arc::new(AtomicUsize::new(0));
+        let url: RelayUrl = "https://relay0.test".parse().unwrap();
+        // keys are made before the race so that nothing but the barrier precedes get()
+        let ekeys: Arc<Vec<Option<EndpointId>>> =
+            Arc::new((0..c.rounds).map(|r| (round_kind(r) != "custom").then(|| round_endpoint_key(r))).collect());
+        let mut handles = Vec::new();
+        for _t in 0..c.threads {
+            let (maps, seq, arrived, ekeys, url) = (maps.clone(), seq.clone(), arrived.clone(), ekeys.clone(), url.clone());
+            let (rounds, k) = (c.rounds, c.threads);
+            handles.push(std::thread::spawn(move || {
+                let mut log: Vec<Seen> = Vec::with_capacity(rounds);
+                for r in 0..rounds {
+                    let kind = round_kind(r);
+                    let ckey = round_custom_key(r);
+                    let s1 = seq.fetch_add(1, Ordering::SeqCst);
+                    // spin barrier: round r is open once (r + 1) * k arrivals were counted
+                    arrived.fetch_add(1, Ordering::SeqCst);
+                    let mut spins = 0u32;
+                    while arrived.load(Ordering::Acquire) < (r + 1) * k {
+                        spins += 1;
+                        if spins % 2048 == 0 {
+                            std::thread::yield_now();
+                        } else {
+                            std::hint::spin_loop();
+                        }
+                    }
+                    let a = match kind {
+                        "endpoint" => maps.get_endpoint(ekeys[r].as_ref().unwrap()),
+                        "relay" => maps.get_relay(&url, ekeys[r].as_ref().unwrap()),
+                        _ => maps.get_custom(&ckey),
+                    };
+                    let s2 = seq.fetch_add(1, Ordering::SeqCst);
+                    let a6 = v6(a);
+                    let s3 = seq.fetch_add(1, Ordering::SeqCst);
+                    let back = match kind {
+                        "endpoint" => maps.lookup_endpoint(a6).flatten().map(|x| Some(x) == ekeys[r]),
+                        "relay" => maps.lookup_relay(a6).flatten().map(|x| x.0 == url && Some(x.1) == ekeys[r]),
+                        _ => maps.lookup_custom(a6).flatten().map(|x| x == ckey),
+                    };
+                    let s4 = seq.fetch_add(1, Ordering::SeqCst);
+                    log.push(Seen { s1, s2, s3, s4, addr: a6, back: match back { None => 0, Some(true) => 1, Some(false) => 2 } });
+                }
+                log
+            }));
+        }
+        let logs: Vec<Vec<Seen>> = handles.into_iter().map(|h| h.join().expect("contention thread")).collect();
+        // which rounds disagree?  (selection only: the verdict is TLC's, on the emitted records)
+        let mut owner: std::collections::HashMap<(&'static str, Ipv6Addr), usize> = Default::default();
+        let mut partner: Vec<Option<usize>> = vec![None; c.rounds];
+        let mut suspicious: Vec<usize> = Vec::new();
+        for r in 0..c.rounds {
+            let first = logs[0][r].addr;
+            let mut bad = logs.iter().any(|l| l[r].addr != first || l[r].back != 1);
+            for l in &logs {
+                match owner.insert((round_kind(r), l[r].addr), r) {
+                    Some(o) if o != r => {
+                        bad = true;
+                        partner[r] = Some(o);
+                    }
+                    _ => {}
+                }
+            }
+            if bad {
+                suspicious.push(r);
+            }
+        }
+        let step = (c.rounds / c.sample.max(1)).max(1);
+        let sample: Vec<usize> = (0..c.rounds).step_by(step).filter(|r| !suspicious.contains(r)).take(c.sample).collect();
+        let emit_round = |rs: &[usize], out: &mut NdjsonOut| {
+            let mut recs: Vec<(u64, Rec)> = Vec::new();
+            let mut names: Vec<Ipv6Addr> = Vec::new();
+            for (ki, &r) in rs.iter().enumerate() {
+                let kind = round_kind(r);
+                let key = format!("k{}", ki + 1);
+                for (t, l) in logs.iter().enumerate() {
+                    let s = l[r];
+                    let hn = match names.iter().position(|x| *x == s.addr) {
+                        Some(i) => i,
+                        None => {
+                            names.push(s.addr);
+                            names.len() - 1
+                        }
+                    };
+                    // round-local host names keep TLC's universe small; the real address is carried in `addr`
+                    let host = format!("a{}", hn + 1);
+                    let (cls, carried) = classify(SocketAddr::new(s.addr.into(), 12345));
+                    let cls = if carried.ip() == IpAddr::from(s.addr) { cls.to_string() } else { format!("{cls}!carried={carried}") };
+                    let tn = format!("t{}", t + 1);
+                    let g = Rec { ev: "call", t: tn.clone(), name: "get", kind, key: key.clone(), host: "none".into(), rhost: host.clone(), rkey: "nokey".into(), cls: "-".into() };
+                    recs.push((s.s1, g.clone()));
+                    recs.push((s.s2, Rec { ev: "ret", cls: format!("{cls}"), ..g }));
+                    let lk = Rec { ev: "call", t: tn, name: "lookup", kind, key: "nokey".into(), host, rhost: "none".into(), rkey: "nokey".into(), cls: format!("round {r} addr {}", s.addr) };
+                    recs.push((s.s3, lk.clone()));
+                    let rkey = match s.back { 0 => "nokey".to_string(), 1 => key.clone(), _ => "foreign".to_string() };
+                    recs.push((s.s4, Rec { ev: "ret", rkey, ..lk }));
+                }
+            }
+            recs.sort_by_key(|(s, _)| *s);
+            for (_, r) in &recs {
+                out.emit(r);
+            }
+            out.emit(&Rec { ev: "reset", t: "-".into(), name: "-", kind: "-", key: "nokey".into(), host: "none".into(), rhost: "none".into(), rkey: "nokey".into(), cls: "-".into() });
+        };
+        let mut emitted_suspicious = 0;
+        for &r in suspicious.iter().take(c.max_suspicious) {
+            match partner[r] {
+                Some(o) => emit_round(&[o, r], out),
+                None => emit_round(&[r], out),
+            }
+            emitted_suspicious += 1;
+        }
+        for &r in &sample {
+            emit_round(&[r], out);
+        }
+        ContendSummary { rounds: c.rounds, suspicious: suspicious.len(), emitted_suspicious, emitted_sample: sample.len() }
+    }
+
     #[derive(Deserialize)]
     struct ClsCase {
         fam: String,
@@ -602,6 +774,15 @@ mod c18 {
                 let n: usize = cfgs.iter().map(|h| hammer(h, &mut out)).sum();
                 out.finish();
                 println!("{n}");
+            }
+            "contend" => {
+                let cfgs: Vec<Contend> = read_ndjson(&args.path("in"));
+                let mut out = NdjsonOut::create(&args.path("out"));
+                for c in &cfgs {
+                    let sum = contend(c, &mut out);
+                    println!("{}", serde_json::to_string(&sum).unwrap());
+                }
+                out.finish();
             }
             "classify" => {
                 let cases: Vec<ClsCase> = read_ndjson(&args.path("in"));
